@@ -3,6 +3,7 @@ import GoImap.Drive.C04
   Driver for C06 (the server survives arbitrary input and disconnects).  Case lines:
 
     id  cut|gen|mut|junk  lit  preauth  cut  delivered(hex)  trace  end  calls  closes  panics  drained  maxArg  idleLeft
+    id  gone   (same fields; the client end was closed before the greeting could be written)
     id  depth  shape  n  result  closes  panics  drained
     id  leak   goroutines-before  goroutines-with-servers  excess-after  tracked-connections
 
@@ -95,6 +96,16 @@ def handle (f : List String) : String :=
     let orc := if conns != "0" then s!"fail:connections-still-tracked@{conns}"
                else if excess != "0" && !excess.startsWith "-" then s!"fail:goroutines-left-behind@{excess}"
                else "ok"
+    s!"{id}\t1\t{orc}\t-"
+  | [id, "gone", _, _, _, _, _, _, _, closes, panics, drained, _, idle] =>
+    -- the client end was closed before the greeting: only the clean-up is judged (the model has
+    -- no failing greeting write)
+    let orc :=
+      if panics != "0" then "fail:server-panicked"
+      else if closes != "1" then s!"fail:session-closed-{closes}-times"
+      else if drained != "1" then "fail:connection-still-tracked-after-close"
+      else if idle != "0" then s!"fail:session-idle-still-running-after-close@{idle}"
+      else "ok"
     s!"{id}\t1\t{orc}\t-"
   | [id, _kind, lit, preauth, _cut, delivered, trace, endi, calls, closes, panics, drained, _maxArg, idle] =>
     match hexNat? delivered, parseTrace? trace with
